@@ -104,6 +104,11 @@ pub fn universe(sc: &uni::Scratch, name: &str) -> Tree {
 				if let Some(cb) = spend {
 					spec.txs = vec![uni::spend_coinbase(&kc, cb, REWARD, &[(1000 + cb, REWARD - m)], 100 + cb as u64)];
 				}
+				if h == 71 && name == "long+w" {
+					// long+w: the first block above the horizon of head x90 spends two sibling leaves from far below
+					// (coinbases 6 and 7): a compaction whose horizon is one block too recent removes their data
+					spec.txs = vec![uni::spend_coinbase(&kc, 6, REWARD, &[(1006, REWARD - m)], 106), uni::spend_coinbase(&kc, 7, REWARD, &[(1007, REWARD - m)], 107)];
+				}
 				let i = tb.add(&format!("x{}", h), prev, &spec);
 				prev = Some(i);
 			}
@@ -111,11 +116,13 @@ pub fn universe(sc: &uni::Scratch, name: &str) -> Tree {
 			let _x91 = tb.add("x91", Some(x90), &BlockSpec::empty(91));
 			// an alternative block 91 that spends two sibling leaves far below the horizon
 			// (coinbases 6 and 7); the fork y90..y92 reorgs it out again (used by C17)
-			let _z91 = tb.add(
-				"z91",
-				Some(x90),
-				&BlockSpec::with(291, vec![uni::spend_coinbase(&kc, 6, REWARD, &[(1006, REWARD - m)], 106), uni::spend_coinbase(&kc, 7, REWARD, &[(1007, REWARD - m)], 107)]),
-			);
+			if name != "long+w" {
+				let _z91 = tb.add(
+					"z91",
+					Some(x90),
+					&BlockSpec::with(291, vec![uni::spend_coinbase(&kc, 6, REWARD, &[(1006, REWARD - m)], 106), uni::spend_coinbase(&kc, 7, REWARD, &[(1007, REWARD - m)], 107)]),
+				);
+			}
 			// fork from x89 inside the horizon: y90 y91 y92
 			let x89 = tb.tree.blocks.iter().position(|b| b.name == "x89").unwrap();
 			let y90 = tb.add("y90", Some(x89), &BlockSpec::with(190, vec![uni::spend_coinbase(&kc, 80, REWARD, &[(1080, REWARD - m)], 180)]));
